@@ -171,7 +171,7 @@ CHECKS = {
         'theorem_modules': ['Pangaea.Theorems.C12'],
         'theorems': ['Pangaea.C12.one_rule', 'Pangaea.C12.if_then_only', 'Pangaea.C12.if_else_only', 'Pangaea.C12.shortcut_decided',
                      'Pangaea.C12.shortcut_undecided', 'Pangaea.C12.shortcut_by_truthiness', 'Pangaea.C12.guard_spec'],
-        'harness': ['C12'],
+        'harness': ['C12', 'C12core'],
         'shards': 8,
         'spec_is_function': True,
         'exhaustive': True,
@@ -283,8 +283,9 @@ CHECKS = {
                      'elems_head', 'elems_head_unpacked', 'elems_tail', 'arr_literal', 'args_head', 'args_head_unpacked_arr', 'args_head_unpacked_obj', 'args_tail', 'kws_head', 'kws_tail',
                      'call_receiver', 'call_chain_argument', 'call_arguments', 'call_keyword_arguments', 'litcall_receiver', 'litcall_callee', 'pair_value_named', 'pair_value_computed', 'pair_key_computed',
                      'pairs_tail_named', 'obj_pairs', 'obj_unpacked_head', 'obj_unpacked', 'embedded_part_head', 'embedded_str', 'default_value', 'stmt_expr', 'stmt_return', 'stmt_condition',
-                     'stmts_head', 'stmts_tail', 'body', 'call_body', 'stmts_head_defers', 'thoughtful_catches', 'nested_example']],
+                     'stmts_head', 'stmts_tail', 'body', 'call_body', 'stmts_head_defers', 'thoughtful_catches', 'nested_example', 'unchecked_results_are_the_reviewed_ones']],
         'harness': ['C07'],
+        'generated': ['C07'],
         'shards': 14,
         'spec_is_function': True,
         'rule': 'fault injection: for each generated Core program, the program itself and one variant per expression position (up to 12 per program quick / 40 thorough; position classes: operand, element, unpacked, argument, keyword-argument, '
